@@ -1,5 +1,5 @@
 SPECIFICATION Spec
-CONSTANTS Quota = 3
+CONSTANTS Quota = 5
  Depth2 = 1
  TableQuota = 1
 INVARIANT DomainOK
